@@ -46,13 +46,109 @@ def landscape_case(draw, mode):
     return {'landscape': r}
 
 
+@st.composite
+def inverse_pair_case(draw, mode):
+    """Lazy inverses of one SPD operator created under configurations that differ in ONE field, all passed to
+    the SAME filtering-jit function (a compilation cache keyed on incomplete static metadata would mix them up)."""
+    n = draw(st.integers(2, 4))
+    B = [[draw(st.sampled_from([-1.0, 0.0, 1.0, 0.5])) for _ in range(n)] for _ in range(n)]
+    field = draw(st.sampled_from(['solver_options', 'solver_options', 'solver', 'solver_callback', 'solver_throw',
+                                  'solver_options_arrays']))
+    return {'inverse_pair': {'n': n, 'B': B, 'field': field, 'y0': [draw(st.sampled_from([1.0, -2.0, 0.5, 3.0])) for _ in range(n)],
+                             'x': [draw(st.sampled_from([1.0, 2.0, -1.0, 3.0])) for _ in range(n)],
+                             'order': draw(st.sampled_from([[0, 1, 0], [1, 0, 1], [0, 1], [1, 0]]))}}
+
+
+_SHARED_FJ = None
+
+
+def _shared_filter_jit():
+    global _SHARED_FJ
+    if _SHARED_FJ is None:
+        import equinox as eqx
+
+        _SHARED_FJ = eqx.filter_jit(lambda o, v: o.mv(v))
+    return _SHARED_FJ
+
+
+def _check_inverse_pair(r, mode):
+    import jax
+    import jax.numpy as jnp
+    import lineax as lx
+
+    from furax import Config
+    from furax._base.dense import DenseBlockDiagonalOperator
+
+    n = r['n']
+    B = np.asarray(r['B'], dtype=float)
+    M = B.T @ B + 2.0 * np.eye(n)
+    A = DenseBlockDiagonalOperator(jnp.asarray(M, jnp.float32), jax.ShapeDtypeStruct((n,), jnp.float32), 'ij,j->i')
+    calls = []
+    base = {'solver': lx.CG(rtol=1e-12, atol=1e-12, max_steps=1), 'solver_callback': ops._quiet_cb}
+    other = dict(base)
+    f = r['field']
+    S = jax.ShapeDtypeStruct((n,), jnp.float32)
+    if f == 'solver_options':
+        # preconditioners (operators) as option values
+        from furax._base.diagonal import DiagonalOperator
+
+        d = 1.0 / np.diag(M)
+        base['solver_options'] = {'preconditioner': DiagonalOperator(jnp.asarray(d, jnp.float32), in_structure=S)}
+        other['solver_options'] = {'preconditioner': DiagonalOperator(jnp.asarray(d * (1.5 + np.arange(n)), jnp.float32), in_structure=S)}
+    elif f == 'solver_options_arrays':
+        # raw arrays as option values (an initial guess), different in the two configurations
+        base['solver_options'] = {'y0': jnp.asarray(r['y0'], jnp.float32)}
+        other['solver_options'] = {'y0': jnp.asarray(r['y0'], jnp.float32)[::-1] + 1.0}
+    elif f == 'solver':
+        other['solver'] = lx.CG(rtol=1e-12, atol=1e-12, max_steps=2)
+    elif f == 'solver_callback':
+        other['solver_callback'] = lambda s: calls.append(1)
+    else:
+        other['solver_throw'] = True
+    invs = []
+    for cfg in (base, other):
+        with Config(**cfg):
+            invs.append(must_not_raise('inverse', lambda: A.I))
+    x = jnp.asarray(r['x'], jnp.float32)
+    import equinox as eqx
+
+    fj = _shared_filter_jit() if f != 'solver_options_arrays' else eqx.filter_jit(lambda o, v: o.mv(v))
+    expected = []
+    for k, op in enumerate(invs):
+        try:
+            expected.append(np.asarray(op.mv(x)))
+        except Exception as e:  # noqa: BLE001  (solver_throw=True with a truncated solve raises: that is the expected eager behaviour)
+            expected.append(e)
+    jax.effects_barrier()
+    for k in r['order']:
+        n0 = len(calls)
+        try:
+            got = np.asarray(fj(invs[k], x))
+            jax.effects_barrier()
+        except Exception as e:  # noqa: BLE001
+            got = e
+        exp = expected[k]
+        if f == 'solver_options_arrays' and isinstance(got, Exception) and not isinstance(exp, Exception) \
+                and 'comparable' in str(got):
+            raise Violation('filter_jit/InverseOperator/array-valued-solver_options',
+                            f'{type(got).__name__}: {str(got)[:160]}')
+        if isinstance(exp, Exception) != isinstance(got, Exception):
+            raise Violation(f'filter_jit-shared:{f}', f'operator {k}: eager {"raises" if isinstance(exp, Exception) else "returns"} but the filtering jit {"raises" if isinstance(got, Exception) else "returns"}')
+        if not isinstance(exp, Exception) and not np.allclose(got, exp, rtol=1e-4, atol=1e-5):
+            raise Violation(f'filter_jit-shared:{f}', f'operator {k} passed to a shared filtering jit returns {got} instead of {exp} (configurations differ in {f})')
+        if f == 'solver_callback' and not isinstance(got, Exception):
+            if (len(calls) > n0) != (k == 1):
+                raise Violation(f'filter_jit-shared:{f}', f'operator {k}: wrong callback invoked under the shared filtering jit')
+    return {'nontrivial': True, 'classes': ['inverse_pair:' + f]}
+
+
 def strategy(tier, mode):
     from .c08 import single_case
 
     return st.one_of(single_case(mode), single_case(mode), single_case(mode),
                      gen.expression_case(mode, cap=16, max_len=4, depth=2),
                      gen.expression_case(mode, cap=16, max_len=4, depth=2),
-                     landscape_case(mode))
+                     landscape_case(mode), inverse_pair_case(mode))
 
 
 def _has_mask(r, defs):
@@ -150,6 +246,8 @@ def check(case, mode):
 
     if 'landscape' in case:
         return _check_landscape(case['landscape'], mode)
+    if 'inverse_pair' in case:
+        return _check_inverse_pair(case['inverse_pair'], mode)
     defs = case.get('defs', [])
     den = ops.denote_case(case)
     op = must_not_raise('build', ops.build_case, case)
